@@ -49,6 +49,7 @@ Definition decode_css (v : cview) : option sconfig :=
   do base_indent <- expect_str (opt v k_output_baseIndent);
   do indent <- expect_str (opt v k_output_indent);
   do _ <- expect (fun c => match c with CFieldDefault => true | _ => false end) (opt v k_output_field);
+  do _ <- expect (fun c => match c with CTextDefault => true | _ => false end) (opt v k_output_text);
   Some (mkCfg snippets None keywords unitless short_hex between after int_unit float_unit aliases
               json json_dq skip_unmatched min_score format newline base_indent indent FieldPlaceholder).
 
